@@ -176,6 +176,9 @@ fn check_inner(sub: &str, g: &G, toks: &[char], l: &mut Local) -> CaseRes {
 }
 
 pub fn check_case(case: &Case, l: &mut Local) -> Result<(), Fail> {
+    if case.sub == "text-static" {
+        return text_case(&case.input, l).map_err(|(_, f)| f);
+    }
     check_inner(&case.sub, &case.g, &case.toks(), l).map_err(|(_, f)| f)
 }
 
@@ -237,6 +240,93 @@ pub fn decode(tape: &[u32]) -> (G, Vec<char>, &'static str) {
     (g, input, sub)
 }
 
+
+// ---------------------------------------------------------------------------------------------
+// statically typed text parsers (padded() -> skip_while, newline() -> peek / skip, whitespace,
+// keyword): combinators the grammar AST does not contain; oracle-free position consistency
+
+type TE<'a> = chumsky::extra::Full<chumsky::error::Rich<'a, char>, Insp, ()>;
+type Ob = (usize, u64, u64);
+
+fn text_family<'a>() -> Vec<(&'static str, chumsky::Boxed<'a, 'a, &'a str, Vec<Ob>, TE<'a>>)> {
+    use chumsky::prelude::*;
+    let ob = |e: &mut chumsky::input::MapExtra<'a, '_, &'a str, TE<'a>>| -> Ob {
+        let end = e.span().end;
+        let st: &Insp = e.state();
+        (end, st.n, st.h)
+    };
+    vec![
+        ("any().padded()", any::<&str, TE>().filter(|c: &char| !c.is_whitespace()).padded().map_with(move |_, e| ob(e)).repeated().collect::<Vec<Ob>>().boxed()),
+        (
+            "choice((just(\"ab\").padded().then(just('!')), any().padded()))",
+            choice((just::<_, &str, TE>("ab").padded().then_ignore(just('!')).map_with(move |_, e| ob(e)), any().padded().map_with(move |_, e| ob(e)))).repeated().collect::<Vec<Ob>>().boxed(),
+        ),
+        ("line.separated_by(newline())", none_of::<_, &str, TE>("\r\n").repeated().map_with(move |_, e| ob(e)).separated_by(text::newline()).collect::<Vec<Ob>>().boxed()),
+        (
+            "newline().or(any().ignored())",
+            text::newline::<&str, TE>().or(any().ignored()).map_with(move |_, e| ob(e)).repeated().collect::<Vec<Ob>>().boxed(),
+        ),
+        (
+            "keyword(\"ab\").padded().or(ident().padded()).or(any())",
+            choice((text::ascii::keyword::<&str, &'static str, TE>("ab").padded().ignored(), text::ascii::ident().padded().ignored(), any().ignored()))
+                .map_with(move |_, e| ob(e))
+                .repeated()
+                .collect::<Vec<Ob>>()
+                .boxed(),
+        ),
+        (
+            "whitespace().then(int(10)).rewind().then(any().padded())",
+            text::whitespace::<&str, TE>().then(text::int(10)).rewind().or_not().ignore_then(any().padded()).map_with(move |_, e| ob(e)).repeated().collect::<Vec<Ob>>().boxed(),
+        ),
+    ]
+}
+
+fn text_case(s: &str, l: &mut Local) -> CaseRes {
+    use chumsky::Parser;
+    let toks: Vec<char> = s.chars().collect();
+    let case = |name: &str| {
+        let mut c = Case::new(ID, "text-static", &G::Empty, &toks);
+        c.extra = serde_json::json!({ "parser": name });
+        c
+    };
+    let fold_to = |end: usize| Insp::default().fold(s[..end].chars());
+    for (name, p) in text_family() {
+        for check in [false, true] {
+            let mut st = Insp::default();
+            let r = crate::run::quietly(|| {
+                if check {
+                    let (o, e) = p.check_with_state(s, &mut st).into_output_errors();
+                    (o.map(|()| vec![]), e.len())
+                } else {
+                    let (o, e) = p.parse_with_state(s, &mut st).into_output_errors();
+                    (o, e.len())
+                }
+            });
+            l.evals += 1;
+            let Ok((out, nerr)) = r else {
+                return Err((case(name), Fail::new("C18/panic", format!("{} panicked on {:?}", name, s))));
+            };
+            if let Some(obs) = &out {
+                for (end, n, h) in obs {
+                    let want = fold_to(*end);
+                    if (*n, *h) != (want.n, want.h) {
+                        return Err((case(name), Fail::new("C18/observation-vs-direct-fold", format!("{} on {:?}: a map_with closure finishing at byte {} saw state (count {}, hash {:x}) but the tokens before that position fold to (count {}, hash {:x})", name, s, end, n, h, want.n, want.h))));
+                    }
+                    l.bump("text_observations_checked");
+                }
+            }
+            if out.is_some() && nerr == 0 {
+                let want = fold_to(s.len());
+                if (st.n, st.h) != (want.n, want.h) {
+                    return Err((case(name), Fail::new("C18/final-state", format!("{} on {:?} ({}): the caller's state after the parse is (count {}, hash {:x}) but the whole input folds to (count {}, hash {:x})", name, s, if check { "check" } else { "parse" }, st.n, st.h, want.n, want.h))));
+                }
+                l.bump("text_final_states_checked");
+            }
+        }
+    }
+    Ok(())
+}
+
 pub fn run(tier: Tier, seed: u64) -> i32 {
     let ctx = Ctx::new(ID, tier, seed);
     ctx.replay_corpus(&check_case);
@@ -254,6 +344,15 @@ pub fn run(tier: Tier, seed: u64) -> i32 {
         }
         Ok(())
     });
+    // text parsers (skip_while / peek+skip paths): every string up to a bound over a whitespace-rich alphabet
+    let tstrings: Vec<String> = all_strings(&['a', 'b', ' ', '\n', '\r', '!', '1'], ctx.pick(5, 6)).into_iter().map(|v| v.into_iter().collect()).collect();
+    let chunks: Vec<&[String]> = tstrings.chunks(500).collect();
+    ctx.par_jobs(&chunks, |ch, l| {
+        for s in ch.iter() {
+            text_case(s, l)?;
+        }
+        Ok(())
+    });
     let n = ctx.pick(1_000_000, 12_000_000);
     ctx.par_random(n, 200, 18, |tape, l| {
         let (g, input, sub) = decode(tape);
@@ -261,7 +360,7 @@ pub fn run(tier: Tier, seed: u64) -> i32 {
         check_inner(sub, &g, &input, l)
     });
     ctx.finish(&check_case, RULE, ASSUMPTIONS, &|l| {
-        for k in ["backtracked_over_tokens_before_an_observation", "observation_under_and_is_or_rewind", "observation_after_recovery", "with_state_on_path", "inspector_rewound", "observations_checked_against_direct_fold"] {
+        for k in ["backtracked_over_tokens_before_an_observation", "observation_under_and_is_or_rewind", "observation_after_recovery", "with_state_on_path", "inspector_rewound", "observations_checked_against_direct_fold", "text_observations_checked", "text_final_states_checked"] {
             if l.counters.get(k).copied().unwrap_or(0) == 0 {
                 return Err(format!("class '{}' is empty", k));
             }
